@@ -115,7 +115,7 @@ type c03Root struct {
 	sq       *vkit.Square
 	hdr      *header.ExtendedHeader
 	edsW     int
-	want     int // min(n, area) for the sample count the running instance is configured with
+	want     int  // min(n, area) for the sample count the running instance is configured with
 	nChanged bool // the sample count changed with the last restart and no request was seen since
 	kind     string
 	empty    bool
